@@ -4,6 +4,7 @@ package main
 import (
 	"fmt"
 	"os"
+	"runtime"
 	"sort"
 
 	"github.com/criyle/go-sandbox/container"
@@ -21,6 +22,9 @@ func init() {
 }
 
 func main() {
+	// the main goroutine keeps the main thread for itself: the Go runtime never terminates the main thread, so a
+	// goroutine of a check that happened to run on it would hide "thread exits while still locked" effects by chance
+	runtime.LockOSThread()
 	if len(os.Args) < 2 {
 		usage()
 	}
